@@ -3,7 +3,7 @@ From Coq Require Import List ZArith NArith Bool Lia.
 From RecordUpdate Require Import RecordSet.
 From PC.Base Require Import Assoc.
 From PC.Sup Require Import Model Monitors Tactics Sim ObsFacts Effects RelCore.
-From PC.Sup Require Import LemC12 LemC12Inst LemC12Obs LemC12Obs2 LemC12Frame LemC12Ev RelC12.
+From PC.Sup Require Import LemC12 LemC12Inst LemC12Obs LemC12Obs2 LemC12Frame LemC12Ev LemC12Run RelC12.
 From PC.Sup Require Import RelC12Api RelC12Stop RelC12State RelC12ProcEnd RelC12Env RelC12Own RelC12Shutdown.
 Import ListNotations RecordSetNotations.
 
@@ -29,14 +29,11 @@ Definition foreign_ok (o : obs) (g : gst) (te : tid * event) : bool :=
   | ESignal i _ _ => is_worker g (fst te) i || negb (existsb (fun snap => memN i (snd snap)) (o_sd_cur o))
   | _ => true
   end.
-(* side conditions of the simulation (see notes/C12.md):
-   - a stop execution concludes "Pending" only about an instance whose command was never launched, and not on
-     the instance goroutine's own thread,
-   - a new instance id is not a member of the snapshot of a shutdown in progress *)
+(* side condition of the simulation (see notes/C12.md): a stop execution concludes "Pending" only about an
+   instance whose command was never launched, and not on the instance goroutine's own thread *)
 Definition side_ok (o : obs) (g : gst) (te : tid * event) : bool :=
   match snd te with
   | EStopPending i => Nat.eqb (o_launches (oi_get o i)) 0 && negb (opt_eqb N.eqb (get (fst te) (o_th o)) (Some i))
-  | ENewInst i _ => negb (existsb (fun snap => memN i (snd snap)) (o_sd_cur o))
   | _ => true
   end.
 
@@ -68,6 +65,8 @@ Record R (s : sys) (o : obs) (g : gst) : Prop := mkR {
            exists x xo, get i (insts s) = Some x /\ get i (oi o) = Some xo /\ o_stopreq xo = true /\
                         (F2 o = false -> launches x = 0);
   r_sd : o_sd_cur o = match sd_active s with Some p => [p] | None => [] end;
+  r_run : RunOK s;
+  r_sdinst : forall sdth order, sd_active s = Some (sdth, order) -> forall j, In j order -> get j (insts s) <> None;
   r_gnone : sd_active s = None -> g = [];
   r_gwork : forall th i, get th g = Some i ->
             exists sdth order x, sd_active s = Some (sdth, order) /\ get i (insts s) = Some x /\
@@ -83,6 +82,7 @@ Proof.
   constructor; cbn; try discriminate; try reflexivity.
   - apply Rc_init.
   - apply LockInv_init.
+  - intros p [].
 Qed.
 
 Lemma flush_inst_eq th s j x' : get j (insts (flush th s)) = Some x' ->
@@ -121,7 +121,7 @@ Qed.
 
 Lemma R_flush s o g th : R s o g -> R (flush th s) o g.
 Proof.
-  intros [H1 H2 H3 H4 H5 H6 H7 H8]. constructor.
+  intros [H1 H2 H3 H4 H5 H6 Hrun Hsdi H7 H8]. constructor.
   - eapply Rc_sys_same; [exact H1|apply sys_same_flush].
   - now apply LockInv_flush.
   - intros i x' Hx'. destruct (flush_inst_eq th s i x' Hx') as (x & Hx & Hv & _).
@@ -132,6 +132,10 @@ Proof.
     destruct (H5 th' i Hp) as (Hn & x & xo & Hx & Hxo & Hs & Hz). split; [exact Hn|].
     destruct (flush_inst_fw th s i x Hx) as (x' & Hx' & Hv & Hl). exists x', xo. rewrite Hl. auto.
   - now rewrite flush_sd_active.
+  - now apply RunOK_flush.
+  - intros sdth order. rewrite flush_sd_active. intros Hs j Hj. specialize (Hsdi sdth order Hs j Hj).
+    destruct (get j (insts s)) as [y|] eqn:Ey; [|congruence].
+    destruct (flush_inst_fw th s j y Ey) as (y' & -> & _). discriminate.
   - now rewrite flush_sd_active.
   - intros th' i Hg. rewrite flush_sd_active. destruct (H8 th' i Hg) as (sdth & order & x & Hs & Hx & Hall).
     destruct (flush_inst_fw th s i x Hx) as (x' & Hx' & Hv & _). apply iview_eq in Hv. destruct Hv as (Hn & _).
@@ -158,6 +162,10 @@ Proof.
   - now apply PI_env.
   - now apply PI_own.
 Qed.
+
+Lemma ev_order_members s th order s' : step_core s th (EShutdownOrder order) = Some s' ->
+  same_members order (map snd (running s)) = true.
+Proof. intros H. cbn in H. unfold step_shutdown in H. break_step H. reflexivity. Qed.
 
 Lemma sd_pc_lock d : sd_pc d = true -> lock_pc d = true.
 Proof. destruct d; cbn; congruence. Qed.
@@ -307,9 +315,27 @@ Proof.
   destruct (get j (insts s)) as [y|] eqn:Ey.
   - destruct (core_old j y Ey) as (_ & y2 & _ & _ & Ey2 & _ & (_ & Hcf & Hd & _) & _).
     assert (y2 = y') by congruence. subst. rewrite Hnm, Hcf. auto.
-  - exfalso. destruct (core_new j y' Ey Ey') as (n & c & He & _). subst e.
-    unfold side_ok in Hside. cbn [fst snd] in Hside. rewrite (r_sd _ _ _ HR), Hs in Hside. cbn [existsb snd] in Hside.
-    apply (proj2 (memN_In j order)) in Hj. rewrite Hj in Hside. discriminate.
+  - exfalso. exact (r_sdinst _ _ _ HR sdth order Hs j Hj Ey).
+Qed.
+
+Lemma core_run : RunOK s'.
+Proof. exact (RunOK_core _ _ _ _ (r_run _ _ _ HR) H). Qed.
+
+Lemma core_exists j : get j (insts s) <> None -> get j (insts s') <> None.
+Proof.
+  intros Hj. pose proof (step_ichange _ _ _ _ H j) as Hi. destruct (get j (insts s)); [|congruence].
+  destruct Hi as (x' & -> & _). discriminate.
+Qed.
+
+Lemma core_sdinst : forall sdth order, sd_active s' = Some (sdth, order) -> forall j, In j order -> get j (insts s') <> None.
+Proof.
+  intros sdth order Hs' j Hj. apply core_exists.
+  destruct (step_core_frame _ _ _ _ H) as [_ _ [E|[(o1 & He & Hs1 & _)|(He & Hs1 & _)]] _ _].
+  - rewrite E in Hs'. exact (r_sdinst _ _ _ HR sdth order Hs' j Hj).
+  - subst e. rewrite Hs1 in Hs'. injection Hs' as <- <-.
+    pose proof (ev_order_members _ _ _ _ H) as Hm. pose proof (same_members_In _ _ Hm j Hj) as Hin.
+    apply in_map_iff in Hin. destruct Hin as (p & <- & Hp). exact (r_run _ _ _ HR p Hp).
+  - congruence.
 Qed.
 
 Lemma core_ghost :
@@ -381,6 +407,8 @@ Proof.
     + apply (core_pi _ _ _ _ _ _ HR0 H HR').
     + apply (core_pend _ _ _ _ _ _ HR0 H Hside HR').
     + apply (core_sd _ _ _ _ _ _ HR0 H Hside HR').
+    + eapply core_run; eauto.
+    + eapply core_sdinst; eauto.
     + exact G1.
     + exact G2.
   - destruct (F2 o) eqn:HF; [now right|left]. unfold mon_w. cbn [fst snd].
